@@ -153,3 +153,79 @@ extern "C" void h_k4()
   VASSERT(empty == !any);               // true only if NO queue holds a record and NO ring holds an event, over ALL contexts
   VWITNESS(!empty && !queued[0] && buffered[0] == 0 && NCTX == 2);
 }
+
+// ---- K1b on the real BackendWorker::_populate_transit_events_from_frontend_queues: ONE cut-off per pass, computed from
+// the clock and the grace period before any queue is read, handed unchanged to the read loop of EVERY context (each
+// visited once, in cache order); the result is the sum of what the read loops report.  The read loop itself is a hook
+// here (it is K1).  This is the populate contract the K5 skeletons assume.
+static uint64_t g_rd_ts[4]; static ThreadContext* g_rd_ctx[4]; static uint32_t g_nrd; static uint64_t g_rd_ret[4];
+extern "C" size_t vh_read_decode(BackendWorker*, BQ& q, ThreadContext* tc, uint64_t ts_now)
+{
+  VASSUME(g_nrd < 4);
+  VASSERT(&q == &tc->_spsc_queue_union.bounded_spsc_queue);        // each context's own queue
+  g_rd_ts[g_nrd] = ts_now; g_rd_ctx[g_nrd] = tc; uint64_t r = vnd_range(0, 8); g_rd_ret[g_nrd] = r; g_nrd++;
+  vll_now_value += static_cast<int64_t>(vnd_u64() & 0xff);             // time passes while a queue is read
+  return r;
+}
+extern "C" void h_populate_pass()
+{
+  new (&g_bw.b._options) BackendOptions();
+  new (&g_bw.b._active_thread_contexts_cache) std::vector<ThreadContext*>(); g_bw.b._active_thread_contexts_cache.reserve(4);
+  for (uint32_t c = 0; c < NCTX; c++) bk_init_context(c, 0);
+  auto& v = g_bw.b._active_thread_contexts_cache;
+  for (uint32_t i = 0; i < NCTX; i++) g_tcs4[i] = ctx_at(i);
+  v._M_impl._M_start = g_tcs4; v._M_impl._M_finish = g_tcs4 + NCTX; v._M_impl._M_end_of_storage = g_tcs4 + 4;
+  uint64_t grace = vnd_u64() & 0x3ff;                                  // microseconds (masked: high bits constant); 0 = ordering by grace period switched off
+  g_bw.b._options.log_timestamp_ordering_grace_period = std::chrono::microseconds{static_cast<int64_t>(grace)};
+  uint64_t now = (vnd_u64() & ((1ull << 40) - 1)) | (1ull << 30); vll_now_value = static_cast<int64_t>(now); vll_now_set = 1;
+  size_t n = bw()._populate_transit_events_from_frontend_queues();
+  VASSERT(g_nrd == NCTX);
+  uint64_t sum = 0;
+  for (uint32_t i = 0; i < NCTX; i++)
+  {
+    VASSERT(g_rd_ctx[i] == ctx_at(i));                                  // every context once, in cache order
+    VASSERT(g_rd_ts[i] == g_rd_ts[0]);                                  // the SAME cut-off for every queue of the pass
+    sum += g_rd_ret[i];
+  }
+  VASSERT(g_rd_ts[0] == (grace ? now - grace * 1000 : ~0ull));        // = clock at the START of the pass minus the grace period
+  VASSERT(n == sum);
+  VWITNESS(grace != 0 && NCTX == 2);
+}
+
+// ---- K6 on the real BackendWorker::_cleanup_invalidated_thread_contexts (C20, C03): a context is handed back for
+// reclamation iff its thread has exited AND its queue is empty AND its ring is empty - buffered statements of an exited
+// thread are never destroyed; all such contexts are removed in one call, the others stay cached in order.
+// The registry calls (has_invalid_thread_context / remove_shared_invalidated_thread_context: C20 counter_*) are hooks.
+static ThreadContext* g_removed[4]; static uint32_t g_nremoved;
+extern "C" bool vh_has_invalid(ThreadContextManager const*) { return true; }
+extern "C" void vh_remove_ctx(ThreadContextManager*, ThreadContext const* tc) { VASSUME(g_nremoved < 4); g_removed[g_nremoved++] = const_cast<ThreadContext*>(tc); }
+extern "C" void h_cleanup_contexts()
+{
+  new (&g_bw.b._options) BackendOptions();
+  new (&g_bw.b._active_thread_contexts_cache) std::vector<ThreadContext*>(); g_bw.b._active_thread_contexts_cache.reserve(4);
+  bk_init_logger(0, 0);
+  bool dead[NCTX], queued[NCTX], buffered[NCTX];
+  for (uint32_t c = 0; c < NCTX; c++)
+  {
+    bk_init_context(c, 0); bk_static_ring(c);
+    queued[c] = vnd_bool(); if (queued[c]) VASSERT(bk_log(c, 0, 5));
+    buffered[c] = vnd_bool();
+    if (buffered[c]) { TransitEvent* te = teb_at(c)->back(); te->timestamp = 7; te->macro_metadata = &MD_LOG; te->logger_base = logger_at(0); teb_at(c)->push_back(); }
+    dead[c] = vnd_bool(); if (dead[c]) ctx_at(c)->mark_invalid();
+  }
+  auto& v = g_bw.b._active_thread_contexts_cache;
+  for (uint32_t i = 0; i < NCTX; i++) g_tcs4[i] = ctx_at(i);
+  v._M_impl._M_start = g_tcs4; v._M_impl._M_finish = g_tcs4 + NCTX; v._M_impl._M_end_of_storage = g_tcs4 + 4;
+  bw()._cleanup_invalidated_thread_contexts();
+  uint32_t exp = 0, kept = 0;
+  for (uint32_t c = 0; c < NCTX; c++)
+  {
+    bool reclaim = dead[c] && !queued[c] && !buffered[c];
+    uint32_t times = 0; for (uint32_t i = 0; i < 4; i++) if (i < g_nremoved && g_removed[i] == ctx_at(c)) times++;
+    VASSERT(times == (reclaim ? 1u : 0u));               // only when drained, and then always (in this very call)
+    if (reclaim) exp++;
+    else { VASSERT(kept < v.size() && v[kept] == ctx_at(c)); kept++; }     // the others stay cached, in order
+  }
+  VASSERT(g_nremoved == exp); VASSERT(v.size() == kept);
+  VWITNESS(NCTX == 2 && exp == 1 && dead[0] && dead[1] && buffered[1]);
+}
